@@ -55,7 +55,8 @@ class Executor(object):
     def _watch(self, args):
         out = []
         for i, a in enumerate(args):
-            if isinstance(a, (np.ndarray, list)) or (hasattr(a, "__dict__") and type(a).__name__ not in ("Ellipsoid", "Projection")):
+            # (shipped constants are covered by the write barrier and the snapshot; everything the caller made is watched here)
+            if isinstance(a, (np.ndarray, list)) or (hasattr(a, "__dict__") and id(a) not in P.BARRIER.ids):
                 out.append((i, a, P.canon(a)))
         return out
 
